@@ -274,6 +274,7 @@ func (w *World) Starts() []Start {
 		{"feed-empty", "feed", "none"},
 		{"failing-url", "open", H + "/missing"},
 		{"empty-collection", "open", H + "/collections/empty"},
+		{"paged-collection", "open", H + "/notes/P/replies"},
 	}
 	sort.SliceStable(s, func(i, j int) bool { return false })
 	return s
